@@ -95,9 +95,10 @@ def run(c):
     c.finish(cov, assumptions=[
         "the relaxed Extended-JSON rendering of one document (bson.MarshalExtJSON) is a library step outside the model: texts are "
         "compared with the library's rendering of the same input bytes, and parsed back with the library's own parser",
-        "every sample of a JSON-flavour collector is renderable by the library (documents with binary subtype 2 shorter than 4 bytes "
-        "make MarshalExtJSON, hence Resolve, fail; arbitrary decimal128 bit patterns render to text the library's parser rejects) - "
-        "such documents are not generated for the JSON kinds",
+        "documents not generated for the JSON kinds: decimal128 values (about 2.5% of random bit patterns render to a $numberDecimal "
+        "string with an exponent the same library's parser rejects - a library asymmetry, the collector's text equals the library's "
+        "rendering) and binary subtype 2 (the harness's independent rendering from raw bytes fails for fewer than 4 data bytes; "
+        "the collector itself renders them)",
         "equality of FNV-64 key hashes (schema-aware kinds) is modelled as equality of the hashed key strings (no collisions)",
         "birch's BSON decoding/encoding of input documents is modelled (Model/Bson.v) and exercised on every exchanged document"])
 
